@@ -476,7 +476,9 @@ func cmdCheck(args []string) int {
 		case r.timedOut:
 			fmt.Fprintf(os.Stderr, "vsim: worker %s/%d exceeded its watchdog; output tail:\n%s\n", r.variant, r.idx, tail(r.out, 30))
 			infra = true
-		case r.exit != 0 && r.viol != nil && strings.Contains(r.out, "[rapid] flaky test, can not reproduce"):
+		case r.exit != 0 && r.viol != nil && strings.Contains(r.out, "[rapid] flaky test, can not reproduce") && !strings.HasPrefix(r.viol.Key, "C18/race:"):
+			// (a ThreadSanitizer report with frames inside the tink tree is physical evidence of two unsynchronised
+			// accesses and stays a violation even if — e.g. with sync.Pool involved — it does not recur on re-execution)
 			// the failing run did not fail again when rapid re-executed the very same draws in the same process: one seed
 			// must be one execution, so this is a nondeterminism alarm (infrastructure), never a violation
 			fmt.Fprintf(os.Stderr, "vsim: worker %s/%d: a failure (%s) did not repeat on immediate re-execution of the same draws — nondeterminism outside the simulator's control; not reported as a violation. Output tail:\n%s\n", r.variant, r.idx, r.viol.Key, tail(r.out, 25))
